@@ -39,6 +39,7 @@ type tccFenceWrapperHandler struct {
 	tccFenceDao       dao.TCCFenceStore
 	logQueue          chan *FenceLogIdentity
 	logCache          list.List
+	logCacheLock      sync.Mutex
 	logQueueOnce      sync.Once
 	logQueueCloseOnce sync.Once
 }
@@ -208,7 +209,10 @@ func (handler *tccFenceWrapperHandler) pushCleanChannel(xid string, branchId int
 	case handler.logQueue <- fli:
 	// todo add batch delete from log cache.
 	default:
+		// (deliveries of several branches come in on goroutines of their own)
+		handler.logCacheLock.Lock()
 		handler.logCache.PushBack(fli)
+		handler.logCacheLock.Unlock()
 	}
 	log.Infof("add one log to clean queue: %v ", fli)
 }
